@@ -467,3 +467,119 @@ def scalar_summaries(mod):
             return [(st2, None)]
         S[n] = h
     return S
+
+
+def field_summaries(mod, viol, W_only=None):
+    """kernel-mode summaries of the contracted lane kernels (proved for every lane by C02 / C11), for routines that are
+    analysed with all lanes tracked: each result lane is a fresh 64-bit value congruent to the field operation on the operand
+    lanes, inside the post-typestate of the contract; operand typestates are checked against the contract"""
+    S = {}
+    for c in contracts.FIELD:
+        if W_only and c['W'] != W_only:
+            continue
+        try:
+            n = mod.find(c['sig'])
+        except KeyError:
+            continue
+
+        def h(K, st, args, c=c):
+            cc = st.case.copy()
+            st2 = st.fork(cc)
+            out = args[0]
+            ins = args[1:1 + len(c['ins'])]
+            for l in range(c['W']):
+                A = []
+                for (nm, ts, sh), a in zip(c['ins'], ins):
+                    if not isinstance(a, KPtr):
+                        raise Undecided('contracted kernel called with a non-pointer operand')
+                    v = K.tokv(cc, K.resolve(cc, K.load_cell(st2, KPtr(a.obj, a.off + 8 * l))))
+                    if bool(v.sh) != bool(sh):
+                        raise Undecided('operand %s of %s carried with the other shifted flag' % (nm, c['sig'].split('(')[0]))
+                    lo, hi = cc.bound(v.p, v.lo, v.hi)
+                    if hi > TS_HI[ts]:
+                        viol.append((c['sig'], 'operand %s lane %d may reach %d, contract wants %s' % (nm, l, hi, ts)))
+                    A.append(v.p)
+                cc.n += 1
+                nm_ = 'k%d' % cc.n
+                ots = c['out'][1]
+                v = sym64(cc, nm_, BOXES['u64'][0], c['out'][2])
+                if TS_HI[ots] < M64 - 1:
+                    cc.cons.append((v.p - TS_HI[ots] - 1, '<0'))
+                cc.subst.append((nm_ + 'l', spec_poly(c['op'], A) - M32 * Poly.var(nm_ + 'h'), False))
+                st2.mem[KPtr(out.obj, out.off + 8 * l)] = v
+            return [(st2, None)]
+        S[n] = h
+    return S
+
+
+def prove_routine_all_lanes(mod, name, arg_cells, out_cells, ret_spec, subst_atoms, seed=0, budget=20000, W=None):
+    """kernel-mode analysis of a routine that combines lanes (dot products, horizontal sums) with the lane kernels and the
+    scalar primitives replaced by their contracts.  arg_cells: per pointer argument a list of (byte offset, symbol, typestate);
+    out_cells: [(arg index, byte offset, spec Poly over symbol polys)], ret_spec: Poly or None.  Returns an Outcome."""
+    gc = kernel_globals(mod)
+    res = Outcome()
+    viol = []
+    S = {}
+    S.update(field_summaries(mod, viol, W))
+    S.update(scalar_summaries(mod))
+    K = KInterp(mod, lane=0, summaries=S, globals_=gc, budget=budget, all_lanes=True)
+    c = Case()
+    st = St(c, {}, {})
+    ptrs = [KPtr('arg%d' % i, 0) for i in range(len(arg_cells))]
+    for i, cells in enumerate(arg_cells):
+        for off, nm, ts in cells:
+            st.mem[KPtr('arg%d' % i, off)] = sym64(c, nm, BOXES[ts][0], 0)
+    try:
+        outs = K.run_fn(st, name, ptrs)
+    except (Undecided, IRError, KeyError, AssertionError) as e:
+        res.undecided.append('%s: %s' % (type(e).__name__, str(e)[:200]))
+        return res
+    for st2, ret in outs:
+        cs = st2.case
+        if not cs.feasible():
+            continue
+        res.cells += 1
+        try:
+            checks = []
+            for ai, off, sp in out_cells:
+                o = st2.mem.get(KPtr('arg%d' % ai, off))
+                if o is None:
+                    raise Undecided('output cell arg%d+%d is never written' % (ai, off))
+                checks.append((K.tokv(cs, K.resolve(cs, o)), sp, 'cell arg%d+%d' % (ai, off)))
+            if ret_spec is not None:
+                if ret is None:
+                    raise Undecided('the routine returns no value')
+                checks.append((K.tokv(cs, K.resolve(cs, ret)), ret_spec, 'returned value'))
+            for o, sp, what in checks:
+                diff = o.p - sp
+                z = final_poly(cs, diff, False)
+                if z.d and all((cs.box[v][1] - cs.box[v][0]) <= 2 for v in z.vars()) and len(z.vars()) <= 12:
+                    bad = False
+                    vs = sorted(z.vars())
+                    for combo in itertools.product(*[range(cs.box[v][0], cs.box[v][1] + 1) for v in vs]):
+                        val = z.subst({v: Poly.const(x) for v, x in zip(vs, combo)}).modp()
+                        if not val.d:
+                            continue
+                        cc2 = cs.copy()
+                        for v, x in zip(vs, combo):
+                            cc2.box[v] = (x, x)
+                        if cc2.feasible() and not cc2.fm_infeasible():
+                            bad = True
+                            cs = cc2
+                            break
+                    if not bad:
+                        z = Poly()
+                    else:
+                        z = final_poly(cs, diff, False)
+                if z.d:
+                    # contract-level witness: operand values plus callee results chosen inside the callee contracts
+                    wit = witness_search(cs, final_poly(cs, diff, True) if cs.subst else diff, seed, exact=False)
+                    res.failures.append(dict(lane=0, box={}, detail='%s differs from the specification by %s' % (what, str(z)[:120]),
+                                             witness=wit, constraints=[], kind='value', contract_level=True))
+                    break
+            for sg, d in viol:
+                res.failures.append(dict(lane=0, box={}, detail='internal call of %s: %s' % (sg.split('(')[0], d), witness=None, constraints=[], kind='pre'))
+                break
+        except (Undecided, KeyError) as e:
+            res.undecided.append(str(e)[:200])
+    return res
